@@ -200,7 +200,7 @@ def run_job(job):
         tried = held = 0
         fails = []
         for _ in range(int(job['random'])):
-            gen = spec.ConcreteGen({}, rng)
+            gen = spec.ConcreteGen({}, rng, moderate=bool(job.get('moderate')))
             tried += 1
             try:
                 r = run_once(c, gen)
